@@ -179,6 +179,25 @@ class Interp:
                 other = [fl for fl in self.fields if fl != self.container][0]
                 return {self.container: ZERO, other: self.val(c[0], st)}
             raise Opaque('construction %s' % show(canon(n))[:80])
+        if k == 'CXXOperatorCallExpr' and n.get('op') in ('+', '-', '*', '/') and len(c) == 3:
+            # a binary operator of the class used inside another one (delegation, `return rhs * lhs;`): by the algebra - the operator called is checked on its own
+            a, b = c[1], c[2]
+            op = n.get('op')
+            a_obj = self.is_cls(a.get('t')) or self.obj_of(a, st) is not None
+            b_obj = self.is_cls(b.get('t')) or self.obj_of(b, st) is not None
+            if op in ('*', '/') and a_obj != b_obj and not (op == '/' and b_obj):
+                o, sc = (self.obj_val(a, st), self.val(b, st)) if a_obj else (self.obj_val(b, st), self.val(a, st))
+                return {fl: scale(v, op, sc) for fl, v in o.items()}
+            if op in ('+', '-') and a_obj and b_obj:
+                x, y = self.obj_val(a, st), self.obj_val(b, st)
+                return {fl: add(x[fl], y[fl] if op == '+' else neg(y[fl])) for fl in self.fields}
+            if op in ('+', '-') and a_obj != b_obj:
+                o = self.obj_val(a if a_obj else b, st)
+                sc = self.val(b if a_obj else a, st)
+                tgt = [fl for fl in self.fields if fl != self.container][0] if self.container is not None else self.fields[0]
+                r = dict(o) if (a_obj or op == '+') else {fl: neg(v) for fl, v in o.items()}
+                r[tgt] = add(r[tgt], sc if (op == '+' or not a_obj) else neg(sc))
+                return r
         if k == 'CXXOperatorCallExpr' and n.get('op') == '-' and len(c) == 2:
             inner = self.obj_val(c[1], st)
             callee = self.fs.fns.get(n.get('callee', ''))
